@@ -39,6 +39,7 @@ type c15Case struct {
 	At       int    `json:"at"`
 	Phase    string `json:"phase"`
 	Dwell    bool   `json:"dwell"`
+	Cb       bool   `json:"cb"` // the CONNECT of the MITM stacking carries "Content-Length: 5"
 }
 
 // c15Dwell: how long a dwelling peer sits out an idle wait - longer than the read-header limit, shorter than the idle limit.
@@ -129,6 +130,11 @@ func (env *c15Env) walk(st string, upTo int, partial bool, path string, slowOrig
 }
 
 func (env *c15Env) walkD(st string, upTo int, partial bool, path string, slowOrigin time.Duration, dwell bool) *walker {
+	return env.walkDC(st, upTo, partial, path, slowOrigin, dwell, false)
+}
+
+// walkDC: cb = the CONNECT that opens an intercepted session announces a body (there is none).
+func (env *c15Env) walkDC(st string, upTo int, partial bool, path string, slowOrigin time.Duration, dwell, cb bool) *walker {
 	f := env.fwds[st]
 	c, err := net.DialTimeout("tcp", f.addr, 5*time.Second)
 	w := &walker{conn: c, err: err, last: time.Now()}
@@ -186,7 +192,11 @@ func (env *c15Env) walkD(st string, upTo int, partial bool, path string, slowOri
 		case "head":
 			switch {
 			case st == "mitm" && !inner:
-				w.writeHead([]byte("CONNECT origin.test:443 HTTP/1.1\r\nHost: origin.test:443\r\n\r\n"), dwell)
+				cl := ""
+				if cb {
+					cl = "Content-Length: 5\r\n"
+				}
+				w.writeHead([]byte("CONNECT origin.test:443 HTTP/1.1\r\nHost: origin.test:443\r\n"+cl+"\r\n"), dwell)
 				w.conn.SetReadDeadline(time.Now().Add(5 * time.Second))
 				r, err := readWireResponse(w.br, "CONNECT")
 				w.conn.SetReadDeadline(time.Time{})
@@ -242,7 +252,7 @@ func c15Run(e *env) {
 		if err := json.Unmarshal(raw, &c); err != nil {
 			fatal("bad case: %v", err)
 		}
-		k := fmt.Sprintf("%s/%d/%v", c.Stacking, c.At, c.Dwell)
+		k := fmt.Sprintf("%s/%d/%v/%v", c.Stacking, c.At, c.Dwell, c.Cb)
 		if !seen[k] {
 			seen[k] = true
 			cases = append(cases, c)
@@ -289,7 +299,7 @@ func c15Run(e *env) {
 }
 
 func (env *c15Env) stallCase(id int, c c15Case, partial bool) map[string]any {
-	res := map[string]any{"ok": true, "stacking": c.Stacking, "at": c.At, "phase": c.Phase, "partial": partial, "kind": "stall", "dwell": c.Dwell}
+	res := map[string]any{"ok": true, "stacking": c.Stacking, "at": c.At, "phase": c.Phase, "partial": partial, "kind": "stall", "dwell": c.Dwell, "cb": c.Cb}
 	fail := func(why string) {
 		if res["ok"] == true {
 			res["ok"], res["why"] = false, why
@@ -304,7 +314,7 @@ func (env *c15Env) stallCase(id int, c c15Case, partial bool) map[string]any {
 	var ws []*walker
 	var obs []chan closeObs
 	for k := 0; k < K; k++ {
-		w := env.walkD(c.Stacking, c.At, partial, fmt.Sprintf("/stall%d-%d", id, k), 0, c.Dwell)
+		w := env.walkDC(c.Stacking, c.At, partial, fmt.Sprintf("/stall%d-%d", id, k), 0, c.Dwell, c.Cb)
 		if w.err != nil {
 			if c.Dwell {
 				fail("peer that let no limit elapse was closed before its limit on the way to its phase: " + w.err.Error())
